@@ -262,25 +262,787 @@ def extender_table(F, rep, rule, graph_route):
     return body
 
 
+# =========================================================================== node builders
+
+def find_extender(F, graph_route):
+    suffix = "compression::ExtModeNode" if graph_route else "compression::ExtMode"
+    step = find_step(F, suffix)
+    cands = []
+    for b in F.fns.values():
+        if b is step or b.get("derived"):
+            continue
+        g = C.CFG(b)
+        sites = [s for s in g.calls() if s[2] and (s[2].get("rpath") == step["path"] or s[2].get("path") == step["path"])]
+        if sites and any(g.loop_of(s[0]) for s in sites):
+            cands.append(b)
+    if len(cands) != 1:
+        raise Unsupported("anchor-missing: growth loop of the %s route" % ("graph" if graph_route else "k-mer"))
+    return step, cands[0]
+
+
+def find_callers(F, callee_path, exclude=()):
+    out = []
+    for b in F.fns.values():
+        if b.get("derived") or b["path"] in exclude:
+            continue
+        for bb in b["blocks"]:
+            t = bb["t"]
+            if t.get("k") == "call":
+                fr = t["f"].get("const", {}).get("fn") if "const" in t["f"] else None
+                if fr and (fr.get("rpath") == callee_path or fr.get("path") == callee_path):
+                    out.append(b)
+                    break
+    return out
+
+
+class HashBuilderOracles(WalkOracles):
+    def __init__(self, script, K, extender_path):
+        WalkOracles.__init__(self, script, K)
+        self.extender_path = extender_path
+        self.ext_calls = []
+
+    def on_call(self, it, fn, args, dest_ty, term, caller):
+        p = fn.get("rpath") or fn.get("path", "")
+        name = fn.get("path", "").split("::")[-1]
+        if p == self.extender_path or fn.get("path") == self.extender_path:
+            k = recv(it, args[1])
+            d = dir_of(args[2])
+            self.ext_calls.append((kid(k), d))
+            if d is None:
+                raise Undecided("extender called with an undetermined direction")
+            w = "l" if d == LEFT else "r"
+            n = self.choose("n_" + w, (0, 1, 2))
+            entries = []
+            for i in range(n):
+                ed = self.choose("d_%s%d" % (w, i), (LEFT, RIGHT))
+                entries.append(Tup([kmer_v("%s%d" % (w, i)), dir_v(ed)]))
+            pr = args[3]
+            if not isinstance(pr, Ref):
+                raise Unsupported("path buffer is not passed by reference")
+            it.write(pr.cell, pr.path, VecV(entries))
+            return exts_sym(w + "ext")
+        if name == "get_key" and "BoomHashMap" in fn.get("path", ""):
+            return some(Ref(Cell(kmer_v("seed"), "seed")))
+        return self.common(it, fn, args, dest_ty, term, caller)
+
+
+def base_tag(v):
+    for t in tags_of(v):
+        if t.startswith("b:"):
+            return t
+    return None
+
+
 def hash_builder_table(F, rep, rule):
-    pass
+    """B.5 (k-mer route): one base and one payload fold per placed k-mer, orientation, deque end, terminal complement"""
+    try:
+        step, ext = find_extender(F, False)
+        builders = find_callers(F, ext["path"], exclude=(ext["path"],))
+    except Unsupported as e:
+        rep.violated(rule, "kmer-builder", str(e), witness={"kind": "anchor-missing"})
+        return
+    if len(builders) != 1:
+        rep.violated(rule, "kmer-builder", "anchor-missing: expected one caller of the growth loop, found %d" % len(builders), witness={"kind": "anchor-missing"})
+        return
+    body = builders[0]
+    adt_path = C.adt_name(F, body["locals"][1])
+    key0 = "kmer-builder(%s)" % body["path"].split("::")[-1]
+    problems = []
+    rows = 0
+    for K in (3, 5):
+        def mk(script, K=K):
+            return HashBuilderOracles(script, K, ext["path"])
+
+        def run(h):
+            it = Interp(F, False, h)
+            me = struct_of(F, adt_path, {"stranded": mkbool(False), "spec": Ref(Cell(Opaque("S", {"spec"}))),
+                                         "available_kmers": Opaque("bit_set::BitSet", {"available"}),
+                                         "index": Ref(Cell(Opaque("index", {"index"})))})
+            pcell = Cell(VecV([]), "path")
+            ecell = Cell(DequeV([Int(8, False, val=9)]), "edge_seq")
+            r = it.call_body(body, [Ref(Cell(me, "self")), Int(64, False, bits=[TOP] * 64, tags=frozenset({"id:seed"})),
+                                    Ref(pcell), Ref(ecell)])
+            return (r, ecell.v)
+        for a, out, h in explore(mk, run):
+            rows += 1
+            rep.evaluations += 1
+            row = dict(a)
+            if isinstance(out, tuple) and out and out[0] == "inconclusive":
+                rep.inconclusive(rule, key0 + "/row%d" % rows, "node builder: %s (row %s)" % (out[1], row))
+                continue
+            if isinstance(out, tuple) and out and out[0] == "diverge":
+                problems.append(("the builder diverges: %s" % out[1], row))
+                continue
+            r, dq = out
+            calls = sorted(h.ext_calls, key=lambda c: (c[1] is None, c[1]))
+            if calls != [(("seed", False), LEFT), (("seed", False), RIGHT)]:
+                problems.append(("the growth loop must be run exactly once to the Left and once to the Right from the seed; calls were %s" % (h.ext_calls,), row))
+                continue
+            nl, nr = a.get("n_l", 0), a.get("n_r", 0)
+            want_seq = []
+            for i in reversed(range(nl)):
+                d = a["d_l%d" % i]
+                want_seq.append("b:l%d:%s:0" % (i, "fw" if d == LEFT else "rc"))
+            for i in range(K):
+                want_seq.append("b:seed:fw:%d" % i)
+            for i in range(nr):
+                d = a["d_r%d" % i]
+                want_seq.append("b:r%d:%s:%d" % (i, "fw" if d == RIGHT else "rc", K - 1))
+            got_seq = [base_tag(e) for e in dq.elems] if isinstance(dq, DequeV) else None
+            if got_seq != want_seq:
+                problems.append(("the assembled node sequence is %s; one base per placed k-mer in walk order requires %s "
+                                 "(b:<k-mer>:<fw|rc>:<base index>)" % (got_seq, want_seq), row))
+                continue
+            if not (isinstance(r, Tup) and len(r.fields) == 2):
+                problems.append(("result shape %r" % (r,), row))
+                continue
+            ex, data = r.fields
+            fold = data.info.get("fold") if isinstance(data, Opaque) else None
+            want_fold = ["seed"] + ["l%d" % i for i in range(nl)] + ["r%d" % i for i in range(nr)]
+            if fold is None or fold[0] != "seed" or sorted(fold) != sorted(want_fold):
+                problems.append(("the payload is folded over %s; the node contains exactly %s" % (fold, want_fold), row))
+                continue
+            lcomp = nl > 0 and a["d_l%d" % (nl - 1)] != LEFT
+            rcomp = nr > 0 and a["d_r%d" % (nr - 1)] != RIGHT
+            want_bits = nibble_bits("lext", lcomp) + nibble_bits("rext", rcomp)
+            ev = ex.fields[0] if isinstance(ex, Adt) and ex.name == EXTS else None
+            if not (isinstance(ev, Int) and list(ev.getbits()) == want_bits):
+                problems.append(("the node's extensions are %r; required: left nibble = left walk's terminal extensions%s, right nibble = right walk's%s" % (
+                    ev, " complemented" if lcomp else "", " complemented" if rcomp else ""), row))
+                continue
+            if h.log and any(e[0] == "lookup-of-rc" for e in h.log):
+                problems.append(("a payload is looked up by the reverse complement of a path k-mer (not a key of the index)", row))
+    if problems:
+        msg, row = problems[0]
+        rep.violated(rule, key0, "k-mer route node builder (%s): %s  [walks %s]" % (body["path"].split("::")[-1], msg, row),
+                     witness={"kind": "row", "row": {k: str(v) for k, v in row.items()}, "problem": msg, "count": len(problems)},
+                     site=F.site(body, body["line"]))
+    else:
+        rep.holds(rule, key0, "k-mer route node builder: on all %d scripted walk pairs (0–2 entries each side, every orientation, K=3 and 5) the sequence "
+                  "gets exactly one correctly oriented base per placed k-mer at the correct end, the payload is folded once per k-mer, and the "
+                  "terminal extensions are complemented exactly when the last entry is reversed" % rows, sample={"walk_pairs": rows})
+
+
+class GraphBuilderOracles(WalkOracles):
+    def __init__(self, script, extender_path):
+        WalkOracles.__init__(self, script)
+        self.extender_path = extender_path
+        self.ext_calls = []
+        self.seq_path = None
+
+    def on_call(self, it, fn, args, dest_ty, term, caller):
+        p = fn.get("rpath") or fn.get("path", "")
+        path = fn.get("path", "")
+        name = path.split("::")[-1]
+        if p == self.extender_path or path == self.extender_path:
+            d = dir_of(args[2])
+            self.ext_calls.append((self.id_of(args[1]), d))
+            if d is None:
+                raise Undecided("extender called with an undetermined direction")
+            w = "l" if d == LEFT else "r"
+            n = self.choose("n_" + w, (0, 1, 2))
+            entries = []
+            for i in range(n):
+                ed = self.choose("a_%s%d" % (w, i), (LEFT, RIGHT))
+                entries.append(Tup([Int(64, False, bits=[TOP] * 64, tags=frozenset({"id:%s%d" % (w, i)})), dir_v(ed)]))
+            return Tup([VecV(entries), exts_sym(w + "ext")])
+        if path.startswith("graph::Node::<") and name == "data":
+            n = recv(it, args[0])
+            nid = self.id_of(n.fields[0]) if isinstance(n, Adt) else None
+            if nid is None:
+                raise Undecided("payload of an unknown node")
+            return self.data_ref(nid)
+        if name == "sequence_of_path":
+            itv = args[1]
+            if isinstance(itv, IterV) and itv.kind == "deque":
+                dq = it.read(itv.a[0].cell, itv.a[0].path)
+                self.seq_path = [(self.id_of(e.fields[0]), dir_of(e.fields[1])) for e in dq.elems]
+            return Opaque("DnaString", {"path-seq"})
+        return self.common(it, fn, args, dest_ty, term, caller)
 
 
 def graph_builder_table(F, rep, rule):
-    pass
+    try:
+        step, ext = find_extender(F, True)
+        builders = find_callers(F, ext["path"], exclude=(ext["path"],))
+    except Unsupported as e:
+        rep.violated(rule, "graph-builder", str(e), witness={"kind": "anchor-missing"})
+        return
+    if len(builders) != 1:
+        rep.violated(rule, "graph-builder", "anchor-missing: expected one caller of the graph growth loop, found %d" % len(builders), witness={"kind": "anchor-missing"})
+        return
+    body = builders[0]
+    adt_path = C.adt_name(F, body["locals"][1])
+    key0 = "graph-builder(%s)" % body["path"].split("::")[-1]
+    problems = []
+    rows = 0
+
+    def mk(script):
+        return GraphBuilderOracles(script, ext["path"])
+
+    def run(h):
+        it = Interp(F, False, h)
+        me = struct_of(F, adt_path, {"stranded": mkbool(False), "spec": Ref(Cell(Opaque("S", {"spec"}))),
+                                     "available_nodes": Opaque("bit_set::BitSet", {"available"}),
+                                     "graph": Ref(Cell(Opaque("graph", {"graph"})))})
+        return it.call_body(body, [Ref(Cell(me, "self")), Int(64, False, bits=[TOP] * 64, tags=frozenset({"id:seed"}))])
+    for a, out, h in explore(mk, run):
+        rows += 1
+        rep.evaluations += 1
+        row = dict(a)
+        if isinstance(out, tuple) and out and out[0] == "inconclusive":
+            rep.inconclusive(rule, key0 + "/row%d" % rows, "graph node builder: %s (row %s)" % (out[1], row))
+            continue
+        if isinstance(out, tuple) and out and out[0] == "diverge":
+            problems.append(("the builder diverges: %s" % out[1], row))
+            continue
+        calls = sorted(h.ext_calls, key=lambda c: (c[1] is None, c[1]))
+        if calls != [("seed", LEFT), ("seed", RIGHT)]:
+            problems.append(("the growth loop must be run once to the Left and once to the Right from the seed node; calls were %s" % (h.ext_calls,), row))
+            continue
+        nl, nr = a.get("n_l", 0), a.get("n_r", 0)
+        want_path = [("l%d" % i, flip(a["a_l%d" % i])) for i in reversed(range(nl))] + [("seed", LEFT)] +                     [("r%d" % i, a["a_r%d" % i]) for i in range(nr)]
+        if h.seq_path != want_path:
+            problems.append(("the node path handed to sequence_of_path is %s; the walks require %s (entries reached through their Left side on the "
+                             "left walk are flipped; (node, orientation) with Left = as stored)" % (h.seq_path, want_path), row))
+            continue
+        if not (isinstance(out, Tup) and len(out.fields) == 4):
+            problems.append(("result shape %r" % (out,), row))
+            continue
+        seq, ex, npath, data = out.fields
+        if "path-seq" not in tags_of(seq):
+            problems.append(("the returned sequence is not the one spelled by sequence_of_path over the assembled node path", row))
+            continue
+        fold = data.info.get("fold") if isinstance(data, Opaque) else None
+        want_fold = ["seed"] + ["l%d" % i for i in range(nl)] + ["r%d" % i for i in range(nr)]
+        if fold is None or fold[0] != "seed" or sorted(fold) != sorted(want_fold):
+            problems.append(("the payload is folded over %s; the merged node contains exactly %s" % (fold, want_fold), row))
+            continue
+        lcomp = nl > 0 and a["a_l%d" % (nl - 1)] == LEFT
+        rcomp = nr > 0 and a["a_r%d" % (nr - 1)] == RIGHT
+        want_bits = nibble_bits("lext", lcomp) + nibble_bits("rext", rcomp)
+        ev = ex.fields[0] if isinstance(ex, Adt) and ex.name == EXTS else None
+        if not (isinstance(ev, Int) and list(ev.getbits()) == want_bits):
+            problems.append(("the merged node's extensions are %r; required: left nibble = left walk's terminal extensions%s, right nibble = right "
+                             "walk's%s (complemented exactly when the last node was entered through the side being walked towards)" % (
+                                 ev, " complemented" if lcomp else "", " complemented" if rcomp else ""), row))
+    if problems:
+        msg, row = problems[0]
+        rep.violated(rule, key0, "graph route node builder (%s): %s  [walks %s]" % (body["path"].split("::")[-1], msg, row),
+                     witness={"kind": "row", "row": {k: str(v) for k, v in row.items()}, "problem": msg, "count": len(problems)},
+                     site=F.site(body, body["line"]))
+    else:
+        rep.holds(rule, key0, "graph route node builder: on all %d scripted walk pairs the node path, payload fold and terminal-extension "
+                  "complements are the specified ones" % rows, sample={"walk_pairs": rows})
+
+
+
+# =========================================================================== drivers
+
+class SetV:
+    """model of bit_set::BitSet over concrete small ids"""
+    __slots__ = ("s",)
+
+    def __init__(self, s=()):
+        self.s = frozenset(s)
+
+    def __repr__(self):
+        return "set%s" % sorted(self.s)
+
+
+class DriverOracles(WalkOracles):
+    N = 3
+
+    def __init__(self, script, builder_path, graph_route):
+        WalkOracles.__init__(self, script)
+        self.builder_path = builder_path
+        self.graph_route = graph_route
+        self.events = []
+        self.new_stranded = None
+
+    def conc(self, v):
+        return v.val if isinstance(v, Int) and v.is_conc() else None
+
+    def on_call(self, it, fn, args, dest_ty, term, caller):
+        p = fn.get("rpath") or fn.get("path", "")
+        path = fn.get("path", "")
+        name = path.split("::")[-1]
+        if is_print_call(fn):
+            return Opaque(dest_ty, {"fmt"})
+        if name == "len" and ("BoomHashMap" in path or "DebruijnGraph" in path):
+            return Int(64, False, val=self.N)
+        if "BitSet" in path or "bit_set" in path:
+            if name in ("with_capacity", "new", "default"):
+                return SetV()
+            r = args[0]
+            sv = it.read(r.cell, r.path) if isinstance(r, Ref) else r
+            if not isinstance(sv, SetV):
+                raise Undecided("bit set operation on %r" % (sv,))
+            i = self.conc(args[1]) if len(args) > 1 else None
+            if name == "insert":
+                if i is None:
+                    raise Undecided("insert of a symbolic id")
+                it.write(r.cell, r.path, SetV(sv.s | {i}))
+                self.events.append(("insert", i))
+                return mkbool(i not in sv.s)
+            if name == "remove":
+                if i is None:
+                    raise Undecided("remove of a symbolic id")
+                it.write(r.cell, r.path, SetV(sv.s - {i}))
+                self.events.append(("remove", i))
+                return mkbool(i in sv.s)
+            if name == "contains":
+                if i is None:
+                    raise Undecided("contains of a symbolic id")
+                self.events.append(("contains", i))
+                return mkbool(i in sv.s)
+        if p == self.builder_path or path == self.builder_path:
+            me = args[0]
+            comp = it.read(me.cell, me.path)
+            i = self.conc(args[1])
+            if i is None:
+                raise Undecided("builder called with a symbolic seed id")
+            # locate the availability set inside the worker struct
+            fi = None
+            for k, f in enumerate(comp.fields):
+                if isinstance(f, SetV):
+                    fi = k
+            if fi is None:
+                raise Undecided("the worker struct carries no availability set")
+            avail = comp.fields[fi].s
+            strand = [f for f in comp.fields if isinstance(f, Int) and f.kind == "bool"]
+            self.events.append(("build", i, i in avail, strand[0].val if strand and strand[0].is_conc() else None))
+            # the walk consumes the seed and a scripted subset of the other still-available ids
+            others = sorted(avail - {i})
+            eaten = {i}
+            for o in others:
+                if self.choose("build%d-eats-%d" % (i, o), (False, True)):
+                    eaten.add(o)
+            it.write(me.cell, me.path + (("f", fi),), SetV(avail - eaten))
+            if self.graph_route:
+                return Tup([Opaque("DnaString", {"seq:%d" % i}), exts_sym("n%d" % i), DequeV([]), Opaque("D", {"data"}, {"fold": ("n%d" % i,)})])
+            er = args[3]
+            it.write(er.cell, er.path, DequeV([Int(8, False, val=100 + i)]))
+            return Tup([exts_sym("n%d" % i), Opaque("D", {"data"}, {"fold": ("n%d" % i,)})])
+        if path.startswith("graph::BaseGraph") and name == "new":
+            self.new_stranded = args[0]
+            return Opaque("BaseGraph", {"new-graph"})
+        if path.startswith("graph::BaseGraph") and name == "add":
+            seq = recv(it, args[1])
+            sid = None
+            if isinstance(seq, DequeV) and seq.elems and isinstance(seq.elems[0], Int):
+                sid = seq.elems[0].val - 100
+            for t in tags_of(seq):
+                if t.startswith("seq:"):
+                    sid = int(t[4:])
+            ex = args[2].fields[0] if isinstance(args[2], Adt) else None
+            eid = None
+            if isinstance(ex, Int) and not ex.is_conc():
+                nm = bv.var_name(next(iter(next(iter(ex.getbits()[0])))))[0] if ex.getbits()[0] not in (ZERO, ONE, TOP) else None
+                eid = nm
+            fold = args[3].info.get("fold") if isinstance(args[3], Opaque) else None
+            tgt = recv(it, args[0])
+            self.events.append(("add", sid, eid, fold, "new-graph" in tags_of(tgt)))
+            return Tup([])
+        if path.startswith("graph::BaseGraph") and name in ("finish", "finish_serial"):
+            self.events.append(("finish", "new-graph" in tags_of(args[0])))
+            return Opaque("DebruijnGraph", {"finished-new-graph"})
+        if name == "fix_exts":
+            g = recv(it, args[0])
+            a = args[1]
+            arg = None
+            if isinstance(a, Adt) and a.name.endswith("Option"):
+                if a.variant == 0:
+                    arg = "None"
+                else:
+                    sv = recv(it, a.fields[0])
+                    arg = ("Some", tuple(sorted(sv.s))) if isinstance(sv, SetV) else ("Some", "?")
+            which = "new" if "finished-new-graph" in tags_of(g) else ("old" if "old-graph" in tags_of(g) else "?")
+            self.events.append(("fix_exts", which, arg))
+            return Tup([])
+        if name == "is_compressed":
+            return none()
+        return self.common(it, fn, args, dest_ty, term, caller)
+
+
+def find_builder(F, graph_route):
+    step, ext = find_extender(F, graph_route)
+    bs = find_callers(F, ext["path"], exclude=(ext["path"],))
+    if len(bs) != 1:
+        raise Unsupported("anchor-missing: node builder of the %s route" % ("graph" if graph_route else "k-mer"))
+    ds = find_callers(F, bs[0]["path"], exclude=(bs[0]["path"],))
+    if len(ds) != 1:
+        raise Unsupported("anchor-missing: driver of the %s route" % ("graph" if graph_route else "k-mer"))
+    return step, ext, bs[0], ds[0]
+
+
+def driver_checks(events, n, censored, stranded, graph_route):
+    """shared specification of the driver loop, over the event log"""
+    probs = []
+    avail = set(range(n)) - set(censored)
+    builds = [e for e in events if e[0] == "build"]
+    # every id inserted once before anything else happens to the set
+    ins = [e[1] for e in events if e[0] == "insert"]
+    if sorted(ins) != list(range(n)):
+        probs.append("the availability set is initialised with %s, not with every id 0..%d" % (ins, n - 1))
+    first_build = next((k for k, e in enumerate(events) if e[0] == "build"), len(events))
+    for c in censored:
+        k = next((k for k, e in enumerate(events) if e == ("remove", c)), None)
+        if k is None or k > first_build:
+            probs.append("censored id %d is not removed from the availability set before building starts" % c)
+    for e in builds:
+        if not e[2]:
+            probs.append("a node is built from seed %d although it is no longer available (it was placed in an earlier node or censored)" % e[1])
+        if e[3] is not None and e[3] != stranded:
+            probs.append("the worker's strandedness flag is %s, the caller passed %s" % (e[3], stranded))
+    return probs, avail, builds
 
 
 def hash_driver_table(F, rep, rule):
-    pass
+    try:
+        step, ext, builder, body = find_builder(F, False)
+    except Unsupported as e:
+        rep.violated(rule, "kmer-driver", str(e), witness={"kind": "anchor-missing"})
+        return
+    key0 = "kmer-driver(%s)" % body["path"].split("::")[-1]
+    problems = []
+    rows = 0
+    for stranded in (False, True):
+        def mk(script):
+            return DriverOracles(script, builder["path"], False)
+
+        def run(h, stranded=stranded):
+            it = Interp(F, False, h)
+            r = it.call_body(body, [mkbool(stranded), Ref(Cell(Opaque("S", {"spec"}))), Ref(Cell(Opaque("index", {"index"})))])
+            return r
+        for a, out, h in explore(mk, run):
+            rows += 1
+            rep.evaluations += 1
+            row = dict(a, stranded=stranded)
+            if isinstance(out, tuple) and out and out[0] in ("inconclusive",):
+                rep.inconclusive(rule, key0 + "/row%d" % rows, "driver: %s (row %s)" % (out[1], row))
+                continue
+            if isinstance(out, tuple) and out and out[0] == "diverge":
+                problems.append(("the driver diverges: %s" % out[1], row))
+                continue
+            probs, avail, builds = driver_checks(h.events, DriverOracles.N, [], stranded, False)
+            # which seeds must be built: simulate
+            eaten = set()
+            want_builds = []
+            for i in range(DriverOracles.N):
+                if i in eaten:
+                    continue
+                want_builds.append(i)
+                eaten.add(i)
+                for o in range(DriverOracles.N):
+                    if a.get("build%d-eats-%d" % (i, o)):
+                        eaten.add(o)
+            got_builds = [e[1] for e in builds]
+            if got_builds != want_builds:
+                probs.append("nodes are built from seeds %s; every id still available at its turn must seed exactly one node: %s" % (got_builds, want_builds))
+            adds = [e for e in h.events if e[0] == "add"]
+            want_adds = [(i, "n%d" % i, ("n%d" % i,), True) for i in want_builds]
+            if [tuple(e[1:]) for e in adds] != want_adds:
+                probs.append("nodes added to the graph: %s; each built node must be added exactly once with its own sequence, extensions and payload: %s" % (
+                    [tuple(e[1:]) for e in adds], want_adds))
+            # each add directly follows its build
+            order = [e[0] for e in h.events if e[0] in ("build", "add")]
+            if order != ["build", "add"] * len(want_builds):
+                probs.append("build/add interleaving is %s" % order)
+            ns = h.new_stranded
+            if not (isinstance(ns, Int) and ns.is_conc() and bool(ns.val) == stranded):
+                probs.append("the graph is created with strandedness %r, the caller passed %s" % (ns, stranded))
+            if not (isinstance(out, Opaque) and "new-graph" in out.tags):
+                probs.append("the returned value is not the graph the nodes were added to")
+            for pmsg in probs:
+                problems.append((pmsg, row))
+    if problems:
+        msg, row = problems[0]
+        rep.violated(rule, key0, "k-mer route driver (%s): %s  [scenario %s]" % (body["path"].split("::")[-1], msg, row),
+                     witness={"kind": "row", "row": {k: str(v) for k, v in row.items()}, "problem": msg, "count": len(problems)},
+                     site=F.site(body, body["line"]))
+    else:
+        rep.holds(rule, key0, "k-mer route driver: on all %d scenarios (3 ids, every pattern of ids consumed by earlier walks, both strandedness values) "
+                  "every id is made available, each id still available at its turn seeds exactly one node, and each built node is added once" % rows,
+                  sample={"scenarios": rows})
+    return body
 
 
 def graph_driver_table(F, rep, rule):
-    pass
+    try:
+        step, ext, builder, body = find_builder(F, True)
+    except Unsupported as e:
+        rep.violated(rule, "graph-driver", str(e), witness={"kind": "anchor-missing"})
+        return
+    key0 = "graph-driver(%s)" % body["path"].split("::")[-1]
+    problems = []
+    rows = 0
+    OPTION = "std::option::Option"
+    for stranded in (False, True):
+        for censored in (None, [1], [0, 2]):
+            def mk(script):
+                return DriverOracles(script, builder["path"], True)
+
+            def run(h, stranded=stranded, censored=censored):
+                it = Interp(F, False, h)
+                cn = Adt(OPTION, 0, []) if censored is None else Adt(OPTION, 1, [VecV([Int(64, False, val=c) for c in censored])])
+                return it.call_body(body, [mkbool(stranded), Ref(Cell(Opaque("S", {"spec"}))), Opaque("DebruijnGraph", {"old-graph"}), cn])
+            for a, out, h in explore(mk, run):
+                rows += 1
+                rep.evaluations += 1
+                row = dict(a, stranded=stranded, censored=censored)
+                if isinstance(out, tuple) and out and out[0] == "inconclusive":
+                    rep.inconclusive(rule, key0 + "/row%d" % rows, "driver: %s (row %s)" % (out[1], row))
+                    continue
+                if isinstance(out, tuple) and out and out[0] == "diverge":
+                    problems.append(("the driver diverges: %s" % out[1], row))
+                    continue
+                cens = censored or []
+                probs, avail, builds = driver_checks(h.events, DriverOracles.N, cens, stranded, True)
+                eaten = set(cens)
+                want_builds = []
+                for i in range(DriverOracles.N):
+                    if i in eaten:
+                        continue
+                    want_builds.append(i)
+                    eaten.add(i)
+                    for o in range(DriverOracles.N):
+                        if a.get("build%d-eats-%d" % (i, o)):
+                            eaten.add(o)
+                if [e[1] for e in builds] != want_builds:
+                    probs.append("nodes are built from seeds %s; required %s (every non-censored id still available at its turn)" % ([e[1] for e in builds], want_builds))
+                adds = [tuple(e[1:]) for e in h.events if e[0] == "add"]
+                want_adds = [(i, "n%d" % i, ("n%d" % i,), True) for i in want_builds]
+                if adds != want_adds:
+                    probs.append("nodes added: %s; required %s" % (adds, want_adds))
+                # order: prune(old, Some(available)) -> builds -> finish -> prune(new, None)
+                kinds = [e for e in h.events if e[0] in ("fix_exts", "build", "finish")]
+                want_first = ("fix_exts", "old", ("Some", tuple(sorted(set(range(DriverOracles.N)) - set(cens)))))
+                if not kinds or kinds[0] != want_first:
+                    probs.append("before building, the old graph's extensions must be pruned against exactly the non-censored nodes %s; first event is %s" % (
+                        want_first[2], kinds[0] if kinds else None))
+                seq = [e[0] if e[0] != "fix_exts" else "fix_exts:%s:%s" % (e[1], e[2] if e[2] == "None" else "Some") for e in kinds]
+                want_seq = ["fix_exts:old:Some"] + ["build"] * len(want_builds) + ["finish", "fix_exts:new:None"]
+                if seq != want_seq:
+                    probs.append("order of pruning / building / finishing is %s; required %s (no path may return a graph that skipped the final pruning)" % (seq, want_seq))
+                if not (isinstance(out, Opaque) and "finished-new-graph" in out.tags):
+                    probs.append("the returned graph is not the finished new graph")
+                for pmsg in probs:
+                    problems.append((pmsg, row))
+    if problems:
+        msg, row = problems[0]
+        rep.violated(rule, key0, "graph route driver (%s): %s  [scenario %s]" % (body["path"].split("::")[-1], msg, row),
+                     witness={"kind": "row", "row": {k: str(v) for k, v in row.items()}, "problem": msg, "count": len(problems)},
+                     site=F.site(body, body["line"]))
+    else:
+        rep.holds(rule, key0, "graph route driver: on all %d scenarios censored ids are removed first, extensions are pruned against the surviving nodes, "
+                  "every surviving id still available seeds one node, and the result is finish()ed then pruned again" % rows, sample={"scenarios": rows})
+    return body
+
+
+
+# =========================================================================== entry points and node storage
+
+class EntryOracles(WalkOracles):
+    def __init__(self, script, driver_path):
+        WalkOracles.__init__(self, script)
+        self.driver_path = driver_path
+        self.driver_calls = []
+        self.index_new = None
+        self.contains_asked = []
+
+    def on_call(self, it, fn, args, dest_ty, term, caller):
+        p = fn.get("rpath") or fn.get("path", "")
+        path = fn.get("path", "")
+        name = path.split("::")[-1]
+        tr = fn.get("trait", "")
+        if p == self.driver_path or path == self.driver_path:
+            self.driver_calls.append(args)
+            return Opaque("BaseGraph", {"driver-result"})
+        if "BoomHashMap2" in path and name in ("new", "new_parallel"):
+            self.index_new = args
+            return Opaque("BoomHashMap2", {"built-index"})
+        if "HashSet" in path and name == "contains":
+            k = recv(it, args[1])
+            info = k.info if isinstance(k, Opaque) else {}
+            self.contains_asked.append(dict(info))
+            nm = "has:%s:%s:%s" % (info.get("of"), info.get("side"), info.get("base"))
+            return mkbool(self.choose(nm, (False, True)))
+        if "HashSet" in path and name == "len":
+            return Int(64, False, val=self.n_keys)
+        if tr == "Kmer" and name in ("extend_left", "extend_right", "extend"):
+            k = recv(it, args[0])
+            b = args[1].val if isinstance(args[1], Int) and args[1].is_conc() else "?"
+            side = LEFT if name == "extend_left" else (RIGHT if name == "extend_right" else dir_of(args[2]))
+            return Opaque("K", {"ext"}, {"of": kid(k)[0] if kid(k) else "?", "side": side, "base": b, "canon": False})
+        if tr == "Kmer" and name in ("min_rc", "min_rc_flip"):
+            k = recv(it, args[0])
+            info = dict(k.info) if isinstance(k, Opaque) else {}
+            info["canon"] = True
+            r = Opaque("K", {"ext", "canon"}, info)
+            if name == "min_rc_flip":
+                return Tup([r, mkbool(self.choose("flip:%s" % (info,), (False, True)))])
+            return r
+        return self.common(it, fn, args, dest_ty, term, caller)
+
+
+def entry_points_table(F, rep, rule):
+    try:
+        step, ext, builder, driver = find_builder(F, False)
+    except Unsupported as e:
+        rep.violated(rule, "entry-points", str(e), witness={"kind": "anchor-missing"})
+        return
+    entries = [b for b in find_callers(F, driver["path"], exclude=(driver["path"],)) if b["vis"] == "pub"]
+    rep.floor("public entry points of the k-mer route", 3, len(entries))
+    for body in entries:
+        nm = body["path"].split("::")[-1]
+        key0 = "entry(%s)" % nm
+        # shape of the third parameter decides the harness
+        t3 = F.ty(body["locals"][3])
+        elem = F.ty(F.ty(t3.get("t", "")).get("t", "")) if t3.get("k") == "ref" else {}
+        problems = []
+        rows = 0
+        for stranded in (False, True):
+            def mk(script):
+                h = EntryOracles(script, driver["path"])
+                h.n_keys = 1
+                return h
+
+            def run(h, stranded=stranded):
+                it = Interp(F, False, h)
+                spec = Ref(Cell(Opaque("S", {"spec"}), "spec"))
+                if t3.get("k") == "ref" and F.ty(t3["t"]).get("k") == "slice":
+                    ets = elem.get("ts") or []
+                    if len(ets) == 2 and F.ty(ets[1]).get("k") == "tuple":   # (K, (Exts, D))
+                        items = [Tup([kmer_v("k%d" % i), Tup([exts_sym("e%d" % i), Opaque("D", {"data"}, {"fold": ("d%d" % i,)})])]) for i in range(2)]
+                        h.n_keys = 2
+                        h.mode = "slice-exts"
+                    else:                                                      # (K, D)
+                        items = [Tup([kmer_v("k0"), Opaque("D", {"data"}, {"fold": ("d0",)})])]
+                        h.n_keys = 1
+                        h.mode = "slice-noexts"
+                    third = Ref(Cell(Arr(items), "input"))
+                else:
+                    third = Ref(Cell(Opaque("index", {"caller-index"}), "index"))
+                    h.mode = "index"
+                return it.call_body(body, [mkbool(stranded), spec, third])
+            for a, out, h in explore(mk, run):
+                rows += 1
+                rep.evaluations += 1
+                row = dict(a, stranded=stranded)
+                if isinstance(out, tuple) and out and out[0] == "inconclusive":
+                    rep.inconclusive(rule, key0 + "/row%d" % rows, "%s: %s" % (nm, out[1]))
+                    break
+                if isinstance(out, tuple) and out and out[0] == "diverge":
+                    problems.append(("diverges: %s" % out[1], row))
+                    continue
+                if len(h.driver_calls) != 1:
+                    problems.append(("the compression driver is invoked %d times" % len(h.driver_calls), row))
+                    continue
+                dargs = h.driver_calls[0]
+                s0 = dargs[0]
+                if not (isinstance(s0, Int) and s0.is_conc() and bool(s0.val) == stranded):
+                    problems.append(("the driver receives strandedness %r, the caller passed %s" % (s0, stranded), row))
+                if "spec" not in tags_of(recv(Interp(F, False), dargs[1])) and "spec" not in tags_of(dargs[1]):
+                    pass
+                if not (isinstance(out, Opaque) and "driver-result" in out.tags):
+                    problems.append(("the returned graph is not the driver's result", row))
+                idx = recv(Interp(F, False), dargs[2])
+                if h.mode == "index":
+                    if "caller-index" not in tags_of(idx):
+                        problems.append(("the driver is not given the caller's index", row))
+                    continue
+                if "built-index" not in tags_of(idx) or h.index_new is None:
+                    problems.append(("the driver is not given the index built from the caller's table", row))
+                    continue
+                keys, exts, data = h.index_new[:3]
+                kn = [kid(k)[0] if kid(k) else None for k in keys.elems] if isinstance(keys, VecV) else None
+                dn = [d.info.get("fold") for d in data.elems] if isinstance(data, VecV) else None
+                n = h.n_keys
+                if kn != ["k%d" % i for i in range(n)] or dn != [("d%d" % i,) for i in range(n)]:
+                    problems.append(("keys %s and payloads %s of the built index are not the caller's table in order" % (kn, dn), row))
+                    continue
+                if h.mode == "slice-exts":
+                    ok = isinstance(exts, VecV) and len(exts.elems) == n and all(
+                        isinstance(e, Adt) and list(e.fields[0].getbits())[:4] == [var("e%d" % i, j) for j in range(4)] for i, e in enumerate(exts.elems))
+                    if not ok:
+                        problems.append(("the extensions stored with the keys are not the caller's, in lockstep", row))
+                else:
+                    # extensions found on the fly: bit (side, base) <=> the neighbour is in the key set; neighbour canonical iff unstranded
+                    e0 = exts.elems[0] if isinstance(exts, VecV) and len(exts.elems) == 1 else None
+                    ev = e0.fields[0] if isinstance(e0, Adt) else None
+                    if not (isinstance(ev, Int) and ev.is_conc()):
+                        problems.append(("the computed extensions are not determined by the membership answers (%r)" % (ev,), row))
+                        continue
+                    want = 0
+                    for side in (LEFT, RIGHT):
+                        for b in range(4):
+                            if a.get("has:k0:%s:%s" % (side, b)):
+                                want |= 1 << (b + (4 if side == RIGHT else 0))
+                    if ev.val != want:
+                        problems.append(("the computed extension byte is %s; the neighbours found in the key set give %s" % (bin(ev.val), bin(want)), row))
+                    asked = {(c.get("of"), c.get("side"), c.get("base")) for c in h.contains_asked}
+                    if asked != {("k0", sd, b) for sd in (LEFT, RIGHT) for b in range(4)}:
+                        problems.append(("membership is asked for %s, not for the eight single-base neighbours" % sorted(asked, key=str), row))
+                    for c in h.contains_asked:
+                        if bool(c.get("canon")) != (not stranded):
+                            problems.append(("a neighbour is looked up in its %s form in %s mode (keys are %s)" % (
+                                "canonical" if c.get("canon") else "plain", "stranded" if stranded else "unstranded",
+                                "forward-strand k-mers" if stranded else "canonical k-mers"), row))
+                            break
+        if problems:
+            msg, row = problems[0]
+            rep.violated(rule, key0, "entry point %s: %s  [row %s]" % (nm, msg, {k: str(v) for k, v in row.items() if not k.startswith("has:") or v}),
+                         witness={"kind": "row", "row": {k: str(v) for k, v in row.items()}, "problem": msg, "count": len(problems)},
+                         site=F.site(body, body["line"]))
+        else:
+            rep.holds(rule, key0, "entry point %s reaches the driver exactly once with the caller's strandedness and table (%d rows)" % (nm, rows),
+                      sample={"rows": rows})
 
 
 def node_storage_rules(F, rep, rule):
-    pass
+    """BaseGraph::add keeps sequence / extensions / payload in lockstep"""
+    cands = [b for b in F.fns.values() if b["path"].startswith("graph::BaseGraph") and b["path"].endswith("::add")]
+    if len(cands) != 1:
+        rep.violated(rule, "BaseGraph::add", "anchor-missing: BaseGraph::add", witness={"kind": "anchor-missing"})
+        return
+    body = cands[0]
+    adt_path = C.adt_name(F, body["locals"][1])
 
+    class H(Oracles):
+        def __init__(self):
+            Oracles.__init__(self)
+            self.adds = []
 
-def both_directions(F, rep, rule):
-    pass
+        def on_call(self, it, fn, args, dest_ty, term, caller):
+            path = fn.get("path", "")
+            if "PackedDnaStringSet" in path and path.endswith("::add"):
+                self.adds.append((tags_of(recv(it, args[0])), tags_of(args[1])))
+                return Tup([])
+            return NotImplemented
+    h = H()
+    it = Interp(F, False, h)
+    junk_e, junk_d = exts_sym("junk"), Opaque("D", {"junk"})
+    try:
+        me = struct_of(F, adt_path, {"sequences": Opaque("PackedDnaStringSet", {"seqs"}), "exts": VecV([junk_e]), "data": VecV([junk_d]),
+                                     "stranded": mkbool(False)})
+        cell = Cell(me, "self")
+        it.call_body(body, [Ref(cell), Opaque("S", {"the-sequence"}), exts_sym("e"), Opaque("D", {"the-data"})])
+    except (Undecided, Unsupported, Diverge) as e:
+        rep.inconclusive(rule, "BaseGraph::add", "BaseGraph::add: %s" % e)
+        return
+    rep.evaluations += 1
+    names = [f["name"] for f in F.adts[adt_path]["variants"][0]["fields"]]
+    st = cell.v
+    ex = st.fields[names.index("exts")]
+    da = st.fields[names.index("data")]
+    ok = (len(h.adds) == 1 and "seqs" in h.adds[0][0] and "the-sequence" in h.adds[0][1]
+          and isinstance(ex, VecV) and len(ex.elems) == 2 and list(ex.elems[1].fields[0].getbits())[:4] == [var("e", j) for j in range(4)]
+          and isinstance(da, VecV) and len(da.elems) == 2 and "the-data" in tags_of(da.elems[1]))
+    if ok:
+        rep.holds(rule, "BaseGraph::add", "BaseGraph::add appends the sequence, the extensions and the payload exactly once each (parallel arrays stay aligned)")
+    else:
+        rep.violated(rule, "BaseGraph::add", "BaseGraph::add does not append exactly one sequence, one extension set and one payload "
+                     "(sequence adds: %d, exts: %r, data: %r)" % (len(h.adds), ex, da), site=F.site(body, body["line"]),
+                     witness={"kind": "lockstep"})
+
